@@ -8,6 +8,7 @@
    Statements only; proofs in Proofs/JoinDraw.v, Proofs/JoinRange.v. *)
 From EG Require Import Base.Prelude Model.Geometry Model.Style Model.Line Model.Thickline Model.Join Model.JoinTri.
 From EG Require Import Proofs.Join Proofs.JoinTri Proofs.JoinRange Proofs.JoinDraw Proofs.JoinTriDraw.
+From EG Require Proofs.Tristyled Proofs.Tribridge Proofs.JoinTriBridge.
 Set Default Timeout 60.
 
 (* for every vertex list and width: hypothesis = the corners of the thick segments lie within +-2^29 (one-row
@@ -48,6 +49,12 @@ Theorem C01_join_triangle_pixels_draw_range : forall V t w al fill rs, range_ok 
   jt_rows t w al (match fill with Some _ => true | None => false end) = Some rs -> jt_fused rs = true ->
   exists px dr, jt_pixels t w al fill = Some px /\ jt_draw t w al fill = Some dr /\ flat_map rect_writes dr = px.
 Proof. exact jt_pixels_draw_range. Qed.
+
+(* the computable hypothesis of the tri builder's C01_bridge_tri_stroked_pixels_draw_partial (the same consumers, modelled
+   in Model/Tristyled.v) is this file's jt_fused: the two statements have the same reach *)
+Theorem C01_join_fused_is_first_rows_ok : forall rs,
+  jt_fused rs = true <-> Proofs.Tristyled.first_rows_ok (Proofs.Tribridge.conv_rows rs).
+Proof. exact Proofs.JoinTriBridge.jt_fused_first_rows_ok. Qed.
 
 Example C01_join_nonvacuous :
   let pts := [P 0 0; P 3 0; P 0 6] in
